@@ -89,6 +89,31 @@ def main():
         finally:
             clean()
     json.dump(out, open('/tmp/mutants_result.json', 'w'), indent=1)
+    if '--table' in sys.argv:
+        write_table(out, todo, tier)
+
+
+def write_table(out, todo, tier):
+    """seeded/RESULTS.md: which check caught which change (regenerated, never hand-edited)"""
+    lines = ['# Sensitivity trial (%s tier)' % tier, '',
+             'Regenerated by `tools/mutants.py --table` against /repo at %s. Each change is applied to /repo, the listed checks are run, and the change is undone.' % sh('git -C %s rev-parse --short HEAD' % REPO).stdout.strip(),
+             '"caught" = the check exits 1 with a VIOLATION that replays on the real code.', '',
+             '| change | breaks | needs | checks run | caught by | first violation |', '|---|---|---|---|---|---|']
+    sd = os.path.join(VERIF, 'seeded')
+    for mid, kind, spec, props in todo:
+        e = out.get(mid)
+        if not e: continue
+        if kind == 'patch':
+            meta = json.load(open(os.path.join(sd, mid, 'meta.json')))
+            title = meta.get('title', ''); needs = meta.get('needs', ''); brk = meta.get('property', '')
+        else:
+            title = '`%s`: `%s` -> `%s`' % (spec[0].split('/')[-1], spec[1].strip()[:60].replace('|', '/'), spec[2].strip()[:60].replace('|', '/')); needs = ''; brk = ','.join(props)
+        first = next((v['first'].strip() for p, v in e['checks'].items() if v['rc'] == 1), '')
+        other = '; '.join('%s exit %d %s' % (p, v['rc'], v['problem'][:80]) for p, v in e['checks'].items() if v['rc'] not in (0, 1))
+        lines.append('| %s: %s | %s | %s | %s | %s | %s %s |' % (mid, title.replace('|', '/')[:140], brk, needs.replace('|', '/').replace('\n', ' ')[:200], ' '.join(e['checks']),
+                                                              ' '.join(e['caught_by']) or '**none**', first.replace('|', '/')[:160], other))
+    open(os.path.join(sd, 'RESULTS.md'), 'w').write('\n'.join(lines) + '\n')
+    print('wrote seeded/RESULTS.md')
 
 
 if __name__ == '__main__':
